@@ -215,6 +215,20 @@ def run(ctx):
                     kw = dict(freq=freq, dtstart=D.datetime(y, 12, 15, 9), byweekno=[wn], wkst=wk, count=12, **extra)
                     one_rule(ctx, R, probe, kw, {'start_kind': 'naive'})
                     ctx.count('weekno_boundary_rules')
+        # directed: sub-daily rules whose first accepted day lies a few days after a start with odd minutes / seconds
+        # (the implementation jumps over rejected days; the jump must land on the period grid)
+        k = 0
+        for freq in (R.SECONDLY, R.MINUTELY, R.HOURLY):
+            for interval in (1, 7, 45, 90, 3600):
+                for st in (D.datetime(1997, 9, 2, 9, 0, 45), D.datetime(2001, 2, 27, 23, 59, 59), D.datetime(2000, 12, 30, 0, 7, 1)):
+                    for day in ({'byweekday': R.TH}, {'bymonthday': (st + D.timedelta(days=3)).day}, {'byweekday': [R.MO, R.SU], 'bymonth': [st.month, st.month % 12 + 1]},
+                                {'byyearday': (st + D.timedelta(days=2)).timetuple().tm_yday}):
+                        k += 1
+                        if k % ctx.nshards != ctx.shard:
+                            continue
+                        kw = dict(freq=freq, interval=interval, dtstart=st, count=6, **day)
+                        one_rule(ctx, R, probe, kw, {'start_kind': 'naive'})
+                        ctx.count('subdaily_day_jump_rules')
         # rules that can never match: ValueError or nothing, never a wrong instant
         for base in NEVER:
             for st in (D.datetime(1997, 9, 2, 9, 0, 0), D.datetime(2000, 2, 29, 1, 7, 30)):
@@ -249,6 +263,8 @@ def floors(agg, tier):
         out.append('period probe observed only %d periods' % c.get('periods_observed', 0))
     if c.get('probe_degraded'):
         out.append('period probe could not locate the loop header / cursor: iterations were bounded by line budget only')
+    if c.get('subdaily_day_jump_rules', 0) < 150:
+        out.append('only %d directed sub-daily day-jump rules' % c.get('subdaily_day_jump_rules', 0))
     if c.get('weekno_boundary_rules', 0) < 400:
         out.append('only %d directed week-number rules' % c.get('weekno_boundary_rules', 0))
     if c.get('never_matching_rules', 0) < len(NEVER) * 2:
